@@ -7,7 +7,8 @@
   `exec r pid` (a part whose needed parts ran and whose receives completed) and
   `deliver r names` (any non-empty set of this rank's posted receives whose message has been
   sent — what `Waitsome` may report — and only when no part of `r` is ready, as in the real
-  loop).  All theorems quantify over EVERY well-formed partition (any number of ranks, parts,
+  loop).  All theorems quantify over EVERY partition satisfying `WFexec` (the part of the
+  `DistributedGraphPart` contract the executor relies on; implied by C09's `WF`) (any number of ranks, parts,
   messages), EVERY interleaving of ranks and EVERY `Waitsome` outcome.  The tie to the real
   code (real traces are `Step` paths with equal enabled sets; real partitions pass `checkWF`)
   is the correspondence check in harness/props/c08.py.
@@ -19,7 +20,7 @@ variable {V : Type} (sem : Sem V)
 
 /-- **No deadlock, no empty-`Waitsome` spin.**  In every state — reachable or not — of a
     well-formed partition that is not terminal, some step is enabled. -/
-theorem progress {P : Partition} (hwf : WF P) (s : GState V) (hn : ¬ Terminal P s) :
+theorem progress {P : Partition} (hwf : WFexec P) (s : GState V) (hn : ¬ Terminal P s) :
     ∃ l s', Step sem P s l s' :=
   progress_lemma sem hwf s hn
 
@@ -48,7 +49,7 @@ theorem execution_bounded {P : Partition} {s s' : GState V} {n : Nat} (h : Path 
 /-- **No value is read before it is produced or after it has been released.**  In every
     reachable state, a part the executor may run finds all its input names in the context
     (the model releases a name when its reference count drops to zero, as execute.py does). -/
-theorem inputs_present {P : Partition} (hwf : WF P) {s : GState V}
+theorem inputs_present {P : Partition} (hwf : WFexec P) {s : GState V}
     (hreach : Reachable sem P s) {r : Nat} {p : Part} (hr : r < P.length)
     (hp : p ∈ P.parts r) (hrdy : p.ready (s.rk r)) :
     ∀ n ∈ p.inputs, ((s.rk r).ctx n).isSome :=
@@ -59,15 +60,18 @@ theorem inputs_present {P : Partition} (hwf : WF P) {s : GState V}
     applied to the solution restricted to the part's inputs; a received name = the sent name
     of the matching send), every terminal reachable state holds `ref` for every overall
     output of every rank. -/
-theorem faithful {P : Partition} (hwf : WF P) {ref : Nat → Name → V}
+theorem faithful {P : Partition} (hwf : WFexec P) {ref : Nat → Name → V}
     (hsol : IsSolution sem P ref) {s : GState V} (hreach : Reachable sem P s)
     (hterm : Terminal P s) (r : Nat) (hr : r < P.length) :
     ∀ n ∈ P.overall r, (s.rk r).ctx n = some (ref r n) :=
   faithful_lemma sem hwf hsol hreach hterm r hr
 
-/-- the executable checker run on every real partition is sound for the contract `WF` -/
-theorem checkWF_sound_c08 (P : Partition) (h : checkWF P = true) : WF P :=
-  checkWF_sound_lemma P h
+/-- the executable checker run on every real partition is sound for `WFexec` -/
+theorem checkWFexec_sound (P : Partition) (h : checkWFexec P = true) : WFexec P :=
+  checkWFexec_sound_lemma P h
+
+/-- the full contract of C09 implies `WFexec` -/
+theorem wf_implies_wfexec {P : Partition} (h : WF P) : WFexec P := wfexec_of_wf h
 
 /-! ## non-vacuity -/
 
@@ -89,7 +93,7 @@ def exRef : Nat → Name → Nat := fun r n =>
   if r = 0 then (if n = 0 then 5 else 6) else (if n = 2 then 6 else 12)
 
 example : checkWF exP = true := by decide +kernel
-theorem exP_wf : WF exP := checkWF_sound_c08 exP (by decide +kernel)
+theorem exP_wf : WFexec exP := checkWFexec_sound exP (by decide +kernel)
 
 /-- the hypotheses of `progress` hold in the initial state (which is not terminal) -/
 example : ¬ Terminal exP (init exSem exP) := by
